@@ -29,7 +29,7 @@ AM_ENVS = ["tsp", "cvrp", "cvrptw", "sdvrp", "svrp", "op", "pctsp", "spctsp", "p
 COMBOS = ([("am", e) for e in AM_ENVS]
           + [("ptrnet", "tsp"), ("ham", "pdp"), ("mdam", "tsp"), ("mdam", "cvrp"),
              ("polynet", "tsp"), ("polynet", "cvrp"), ("symnco", "tsp"), ("symnco", "cvrp"),
-             ("matnet", "atsp"), ("l2d", "fjsp"), ("l2d", "jssp")])
+             ("matnet", "atsp"), ("l2d", "fjsp"), ("l2d", "jssp"), ("nar", "tsp"), ("nar", "cvrp")])
 
 EXCLUDED = [
     "MatNetPolicy x ffsp: constructor raises TypeError (out_bias) - cannot be built",
@@ -92,6 +92,10 @@ def make_policy(spec: dict):
         p = MatNetPolicy(**base, **kw)
     elif name == "l2d":
         p = L2DPolicy(env_name=env_name, embed_dim=d, num_encoder_layers=layers, **kw)
+    elif name == "nar":  # real NonAutoregressivePolicy/Decoder behind a stub heatmap encoder (policies.py)
+        from .policies import make_nar_policy
+
+        p = make_nar_policy(env_name, spec["seed"])
     else:
         raise HarnessError(f"unknown policy {name}")
     # give batch-norm layers non-trivial running statistics (a trained model has them); still a pure
